@@ -13,6 +13,8 @@ structure WLp (t : Task) : Prop where
       t.locks ≠ []
   cdel : t.pc = .commitDel → t.del ≠ []
   cset : t.pc = .commitSet → t.ov ≠ []
+  mdel : t.pc = .midDel → t.del ≠ []
+  mset : t.pc = .midSet → t.ov ≠ []
 
 theorem holds_locks_ne {t : Task} {k : Nat} (hm : t.mode ≠ .fast) (h : holds t k = true) : t.locks ≠ [] := by
   have := holds_mem hm h
@@ -72,9 +74,21 @@ theorem WLb_localCmd {t t' : Task} {c : Cmd} (h : WLb t) (hl : localCmd t c = so
   case raise => simp at hl
   case nestIn f => simp at hl; subst hl; exact h
   case nestOut => simp at hl; subst hl; exact h
+  case commit =>
+    split at hl
+    · split at hl <;> simp at hl
+      subst hl; exact h
+    · simp at hl; subst hl; exact h
+  case rollback =>
+    split at hl
+    · split at hl <;> simp at hl
+      subst hl
+      exact fun _ ho => by rcases ho with a | a <;> simp at a
+    · simp at hl; subst hl; exact h
 
 theorem WLp_inactive {t : Task} (h : t.active = false) (h1 : t.pc ≠ .commitDel) (h2 : t.pc ≠ .commitSet) : WLp t :=
-  ⟨fun ha => (by rw [h] at ha; cases ha), fun e => absurd e h1, fun e => absurd e h2⟩
+  ⟨fun ha => (by rw [h] at ha; cases ha), fun e => absurd e h1, fun e => absurd e h2,
+   fun e => by simp [Task.active, e] at h, fun e => by simp [Task.active, e] at h⟩
 
 theorem WLp_abort (t : Task) (o : Outcome) : WLp (abort t o) := by
   unfold abort; split <;> exact WLp_inactive (by simp [Task.active]) (by simp) (by simp)
@@ -85,7 +99,8 @@ theorem WLp_afterCommit (t : Task) : WLp (afterCommit t) := by
 /-- a parked state whose pc is neither a commit step nor a seed read -/
 theorem WLp_plainpc {t : Task} (h : WLb t) (prog : List Cmd) (pc : PC) (h1 : pc ≠ .commitDel) (h2 : pc ≠ .commitSet)
     (h3 : ∀ k n, pc ≠ .seedGet k n) (h4 : ∀ k, pc ≠ .expGet k := by simp)
-    (h5 : ∀ k v e, pc ≠ .existsGet k v e := by simp) : WLp { t with prog := prog, pc := pc } :=
+    (h5 : ∀ k v e, pc ≠ .existsGet k v e := by simp) (h6 : pc ≠ .midDel := by simp) (h7 : pc ≠ .midSet := by simp) :
+    WLp { t with prog := prog, pc := pc } :=
   ⟨fun _ hm ho => h hm (by
       rcases ho with a | a | ⟨k, n, a⟩ | ⟨k, a⟩ | ⟨k, v, e, a⟩
       · exact Or.inl a
@@ -93,7 +108,7 @@ theorem WLp_plainpc {t : Task} (h : WLb t) (prog : List Cmd) (pc : PC) (h1 : pc 
       · exact absurd a (h3 k n)
       · exact absurd a (h4 k)
       · exact absurd a (h5 k v e)),
-   fun e => absurd e h1, fun e => absurd e h2⟩
+   fun e => absurd e h1, fun e => absurd e h2, fun e => absurd e h6, fun e => absurd e h7⟩
 
 theorem WLp_lockOrFail {t : Task} (h : WLb t) (k : Nat) (prog : List Cmd) : WLp (lockOrFail t k prog) := by
   unfold lockOrFail; split
@@ -108,11 +123,11 @@ theorem WLp_settle (now : Nat) (prog : List Cmd) (t : Task) (h : WLb t) : WLp (s
     split
     · split
       · rename_i hd
-        exact ⟨fun _ hm _ => h hm (Or.inr hd), fun _ => hd, fun e => by simp at e⟩
+        exact ⟨fun _ hm _ => h hm (Or.inr hd), fun _ => hd, fun e => by simp at e, fun e => by simp at e, fun e => by simp at e⟩
       · rename_i hd
         split
         · rename_i ho
-          exact ⟨fun _ hm _ => h hm (Or.inl ho), fun e => by simp at e, fun _ => ho⟩
+          exact ⟨fun _ hm _ => h hm (Or.inl ho), fun e => by simp at e, fun _ => ho, fun e => by simp at e, fun e => by simp at e⟩
         · exact WLp_afterCommit _
     · exact WLp_inactive (by simp [Task.active]) (by simp) (by simp)
   · intro t c rest h hl
@@ -125,7 +140,7 @@ theorem WLp_settle (now : Nat) (prog : List Cmd) (t : Task) (h : WLb t) : WLp (s
       split
       · split
         · rename_i hh
-          exact ⟨fun _ hm _ => holds_locks_ne hm hh, fun e => by simp at e, fun e => by simp at e⟩
+          exact ⟨fun _ hm _ => holds_locks_ne hm hh, fun e => by simp at e, fun e => by simp at e, fun e => by simp at e, fun e => by simp at e⟩
         · exact WLp_lockOrFail h _ _
       · exact WLp_plainpc h _ _ (by simp) (by simp) (by simp)
     case get k => split <;> exact WLp_plainpc h _ _ (by simp) (by simp) (by simp)
@@ -133,18 +148,44 @@ theorem WLp_settle (now : Nat) (prog : List Cmd) (t : Task) (h : WLb t) : WLp (s
       split
       · split
         · rename_i hh
-          exact ⟨fun _ hm _ => holds_locks_ne hm hh, fun e => by simp at e, fun e => by simp at e⟩
+          exact ⟨fun _ hm _ => holds_locks_ne hm hh, fun e => by simp at e, fun e => by simp at e, fun e => by simp at e, fun e => by simp at e⟩
         · exact WLp_lockOrFail h _ _
       · exact WLp_plainpc h _ _ (by simp) (by simp) (by simp)
     case setx k v e =>
       split
       · split
         · rename_i hh
-          exact ⟨fun _ hm _ => holds_locks_ne hm hh, fun e => by simp at e, fun e => by simp at e⟩
+          exact ⟨fun _ hm _ => holds_locks_ne hm hh, fun e => by simp at e, fun e => by simp at e, fun e => by simp at e, fun e => by simp at e⟩
         · exact WLp_lockOrFail h _ _
       · exact WLp_plainpc h _ _ (by simp) (by simp) (by simp)
     case nestIn f => simp [localCmd] at hl
     case nestOut => simp [localCmd] at hl
+    case commit =>
+      split
+      · rename_i hd
+        exact ⟨fun _ hm _ => h hm (Or.inr hd), fun e => by simp at e, fun e => by simp at e, fun _ => hd, fun e => by simp at e⟩
+      · split
+        · rename_i ho
+          exact ⟨fun _ hm _ => h hm (Or.inl ho), fun e => by simp at e, fun e => by simp at e, fun e => by simp at e, fun _ => ho⟩
+        · rename_i hd ho
+          have hd' : t.del = [] := by simpa using hd
+          have ho' : t.ov = [] := by simpa using ho
+          exact ⟨fun _ _ hx => by rcases hx with a | a | ⟨k, n, a⟩ | ⟨k, a⟩ | ⟨k, v, e, a⟩ <;> simp [hd', ho'] at a,
+            fun e => by simp at e, fun e => by simp at e, fun e => by simp at e, fun e => by simp at e⟩
+    case rollback =>
+      exact ⟨fun _ _ hx => by rcases hx with a | a | ⟨k, n, a⟩ | ⟨k, a⟩ | ⟨k, v, e, a⟩ <;> simp at a,
+        fun e => by simp at e, fun e => by simp at e, fun e => by simp at e, fun e => by simp at e⟩
+
+theorem WLp_afterMid (now : Nat) (t : Task) : WLp (afterMid now t) := by
+  unfold afterMid
+  split
+  · exact WLp_settle now _ _ (fun _ ho => by rcases ho with a | a <;> simp at a)
+  · exact ⟨fun _ _ hx => by rcases hx with a | a | ⟨k, n, a⟩ | ⟨k, a⟩ | ⟨k, v, e, a⟩ <;> simp at a,
+      fun e => by simp at e, fun e => by simp at e, fun e => by simp at e, fun e => by simp at e⟩
+
+theorem WLp_cancelTask {t : Task} (h : WLp t) : WLp (cancelTask t) := by
+  unfold cancelTask
+  split <;> first | exact WLp_abort _ _ | exact h
 
 theorem WLp_taskStep {t : Task} (hti : t.TI) (h : WLp t) (tid now : Nat) (store : Store) (lock : Locks) :
     WLp (taskStep tid now store lock t).task := by
@@ -199,7 +240,8 @@ theorem WLp_taskStep {t : Task} (hti : t.TI) (h : WLp t) (tid now : Nat) (store 
     dsimp only
     split
     · rename_i ho
-      exact ⟨fun _ hm _ => h.body (by simp [Task.active, hpc]) hm (Or.inl ho), fun e => by simp at e, fun _ => ho⟩
+      exact ⟨fun _ hm _ => h.body (by simp [Task.active, hpc]) hm (Or.inl ho), fun e => by simp at e, fun _ => ho,
+        fun e => by simp at e, fun e => by simp at e⟩
     · exact WLp_afterCommit _
   case commitSet => rw [taskStep_commitSet _ _ _ _ _ hpc]; exact WLp_afterCommit _
   case unlocking ls o =>
@@ -212,6 +254,25 @@ theorem WLp_taskStep {t : Task} (hti : t.TI) (h : WLp t) (tid now : Nat) (store 
       by_cases hr : rest = []
       · exact WLp_inactive (by simp [Task.active, hr]) (by simp [hr]) (by simp [hr])
       · exact WLp_inactive (by simp [Task.active, hr]) (by simp [hr]) (by simp [hr])
+  case midDel =>
+    rw [taskStep_midDel _ _ _ _ _ hpc]
+    dsimp only
+    split
+    · rename_i ho
+      exact ⟨fun _ hm _ => h.body (by simp [Task.active, hpc]) hm (Or.inl ho), fun e => by simp at e, fun e => by simp at e,
+        fun e => by simp at e, fun _ => ho⟩
+    · exact WLp_afterMid _ _
+  case midSet => rw [taskStep_midSet _ _ _ _ _ hpc]; exact WLp_afterMid _ _
+  case midUnlock ls =>
+    have hb := h.body (by simp [Task.active, hpc])
+    cases ls with
+    | nil => rw [taskStep_midUnlock_nil _ _ _ _ _ hpc]; exact WLp_settle now _ _ hb
+    | cons l rest =>
+      rw [taskStep_midUnlock_cons _ _ _ _ _ hpc]
+      by_cases hr : rest = []
+      · simp only [hr, if_true]; exact WLp_settle now _ _ hb
+      · simp only [hr, if_false]
+        exact WLp_plainpc (t := t) hb t.prog _ (by simp) (by simp) (by simp)
 
 theorem WLp_wake {t : Task} (h : WLp t) (now : Nat) : WLp (wake now t) := by
   unfold wake
@@ -236,6 +297,11 @@ theorem WLp_run (store : Store) (ts : List Task) (hf : ∀ t ∈ ts, t.Fresh) (s
     refine ⟨AllTI_step w a hti, fun j => ?_⟩
     cases a with
     | adv d => exact WLp_wake (h j) _
+    | cancel tid =>
+      show WLp (if j = tid then cancelTask (w.tasks j) else w.tasks j)
+      split
+      · exact WLp_cancelTask (h j)
+      · exact h j
     | run tid =>
       show WLp ((w.runTask tid).tasks j)
       by_cases hj : j = tid
@@ -246,6 +312,7 @@ theorem WLp_run (store : Store) (ts : List Task) (hf : ∀ t ∈ ts, t.Fresh) (s
     · rw [e]
       have f := hf t ht
       exact ⟨fun _ _ ho => (by rcases ho with a | a | ⟨k, n, a⟩ | ⟨k, a⟩ | ⟨k, v, e, a⟩ <;> simp [f.ov, f.del, f.pc] at a),
+        fun e' => (by rw [f.pc] at e'; cases e'), fun e' => (by rw [f.pc] at e'; cases e'),
         fun e' => (by rw [f.pc] at e'; cases e'), fun e' => (by rw [f.pc] at e'; cases e')⟩
     · rw [e]; exact WLp_inactive (by simp [Task.inert, Task.active]) (by simp [Task.inert]) (by simp [Task.inert])
 
